@@ -59,7 +59,7 @@ impl SessionCfg {
             budget_bytes_per_byte: 256,
             chunking: Chunking::Full,
             max_tracks: 12,
-            halt_after_micros: 1_500_000,
+            halt_after_micros: 400_000,
         }
     }
 }
@@ -132,7 +132,7 @@ impl Session {
         let t0 = Instant::now();
         let r = guard(f);
         let mut micros = t0.elapsed().as_micros() as u64;
-        if micros > 200_000 {
+        if micros > 100_000 {
             // slow by the wall clock: only CPU actually burned counts (a loaded machine can
             // leave a process unscheduled for seconds). Everything else in a session costs
             // microseconds, so CPU time since the session began bounds this call's CPU time.
